@@ -134,9 +134,10 @@ def acceptResult (s : State) (i r v : Nat) (path : Path) (out : CmpOut) : State 
 /-- Transitions of honest process `i`. -/
 inductive Step (P : Params) : State → State → Prop where
   /-- leader `i` broadcasts PRE-PREPARE for its current round with its own input value or with
-  the value of an available PREPARE quorum. -/
+  the value of an available PREPARE quorum. (Not guarded by `decided = none`: a leader that cached
+  a justification, decided, and only then obtains its input value still broadcasts.) -/
   | propose (s : State) (i v pr : Nat) :
-      P.honest i → (s.nodes i).decided = none → P.leader (s.nodes i).round = i →
+      P.honest i → P.leader (s.nodes i).round = i →
       ((v = P.input i ∧ v ≠ 0) ∨ prepareQuorum P s.hist pr v) →
       Step P s { s with hist := s.hist ++ [.prePrepare i (s.nodes i).round v] }
   /-- `UponJustifiedPrePrepare` for (r,v) from `leader r`, then `compare`. -/
